@@ -1,4 +1,12 @@
-"""C03 implementation driver: models with assertions; verdicts of instance construction."""
+"""C03 implementation driver: models with assertions; verdicts of instance construction.
+
+For every case: build the composition program (vbuild), attach the assertions at their levels (Model,
+Collection or CompoundPrior objects), optionally wrap / copy the model afterwards, then report
+  * the abstract tree of the live model and the `_assertions` of every level WITH ITS PATH (raw __dict__ walk),
+  * for every add_assertion: the live operand objects, the comparison written and the object the
+    operators returned (or the exception they raised),
+  * verdicts of instance_from_vector (strict / ignore_prior_limits), instance_from_path_arguments,
+    instance_from_unit_vector, random_instance; each verdict says whether the exception was a FitException."""
 import json
 import sys
 import logging
@@ -9,10 +17,42 @@ af, conf = setup()
 logging.disable(logging.CRITICAL)
 import vbuild
 from autofit import exc
+from autofit.mapper.prior.abstract import Prior
+from autofit.mapper.prior.arithmetic.compound import CompoundPrior, NegativePrior, AbsolutePrior
+from autofit.mapper.prior.arithmetic.assertion import (
+    GreaterThanLessThanAssertion, GreaterThanLessThanEqualAssertion, CompoundAssertion, ComparisonAssertion)
+from autofit.mapper.prior_model.prior_model import Model
+from autofit.mapper.prior_model.collection import Collection
 
 
-def operand(e, pool):
+def build_operand(e, pool, foreign):
+    """Operand of a comparison. Beyond vbuild.build_expr: foreign priors (not part of the model), subtraction,
+    unary minus / abs, constant-on-the-left forms (all through the real operators)."""
+    t = e["t"]
+    if t == "foreign":
+        return foreign[e["i"]]
+    if t == "unary":
+        x = build_operand(e["a"], pool, foreign)
+        return -x if e["op"] == "neg" else abs(x)
+    if t == "arith":
+        x = build_operand(e["l"], pool, foreign)
+        y = build_operand(e["r"], pool, foreign)
+        return vbuild.arith(e["op"], x, y)
     return vbuild.build_expr(af, e, pool)
+
+
+def abstract_operand(obj, idmap):
+    if isinstance(obj, NegativePrior):
+        return {"t": "unary", "op": "neg", "a": abstract_operand(obj.prior, idmap)}
+    if isinstance(obj, AbsolutePrior):
+        return {"t": "unary", "op": "abs", "a": abstract_operand(obj.prior, idmap)}
+    if isinstance(obj, ComparisonAssertion) or isinstance(obj, CompoundAssertion):
+        return {"t": "assertion", "a": abstract_assertion(obj, idmap)}
+    if isinstance(obj, CompoundPrior):
+        op = {"SumPrior": "+", "MultiplePrior": "*", "DivisionPrior": "/"}.get(type(obj).__name__, type(obj).__name__)
+        return {"t": "arith", "op": op, "ln": obj._left_name, "rn": obj._right_name,
+                "l": abstract_operand(obj._left, idmap), "r": abstract_operand(obj._right, idmap)}
+    return vbuild.abstract_model(af, obj, idmap)
 
 
 def compare(op, x, y):
@@ -27,70 +67,118 @@ def compare(op, x, y):
     raise ValueError(op)
 
 
-def build_assertion(a, pool):
+class NotBuilt(Exception):
+    """The comparison operators raised TypeError; carries the recipe (what was written, on which live operands)."""
+    def __init__(self, recipe, msg):
+        Exception.__init__(self, msg)
+        self.recipe = recipe
+
+
+def build_assertion(a, pool, foreign, idmap):
+    """Returns (object, recipe) -- the recipe holds the abstractions of the LIVE operand objects."""
     k = a["k"]
     if k == "lit":
-        return bool(a["v"])
+        return bool(a["v"]), {"k": "lit", "v": bool(a["v"])}
     if k == "cmp":
-        return compare(a["op"], operand(a["l"], pool), operand(a["r"], pool))
+        x, y = build_operand(a["l"], pool, foreign), build_operand(a["r"], pool, foreign)
+        rec = {"k": "cmp", "op": a["op"], "l": abstract_operand(x, idmap), "r": abstract_operand(y, idmap)}
+        try:
+            return compare(a["op"], x, y), rec
+        except TypeError as e:
+            raise NotBuilt(rec, str(e))
     if k == "chain":
-        first = build_assertion(a["first"], pool)
-        return compare(a["op"], first, operand(a["other"], pool))
+        first, frec = build_assertion(a["first"], pool, foreign, idmap)
+        o = build_operand(a["other"], pool, foreign)
+        rec = {"k": "chain", "first": frec, "op": a["op"], "other": abstract_operand(o, idmap)}
+        try:
+            return compare(a["op"], first, o), rec
+        except TypeError as e:
+            raise NotBuilt(rec, str(e))
+    if k == "native":
+        # Python's own chained comparison  x < y < z  ==  (x < y) and (y < z)
+        x, y, z = (build_operand(a[s], pool, foreign) for s in ("x", "y", "z"))
+        rec = {"k": "native", "op": a["op"], "x": abstract_operand(x, idmap), "y": abstract_operand(y, idmap),
+               "z": abstract_operand(z, idmap)}
+        if a["op"] == "<":
+            return (x < y < z), rec
+        return (x <= y <= z), rec
     raise ValueError(k)
 
 
 def abstract_assertion(a, idmap):
-    from autofit.mapper.prior.arithmetic.assertion import (
-        GreaterThanLessThanAssertion, GreaterThanLessThanEqualAssertion, CompoundAssertion)
     if isinstance(a, bool):
         return {"k": "lit", "v": a}
     if isinstance(a, CompoundAssertion):
         return {"k": "and", "a": abstract_assertion(a.assertion_1, idmap), "b": abstract_assertion(a.assertion_2, idmap)}
-    if isinstance(a, GreaterThanLessThanEqualAssertion):
-        return {"k": "le", "l": vbuild.abstract_model(af, a._left, idmap), "g": vbuild.abstract_model(af, a._right, idmap)}
-    if isinstance(a, GreaterThanLessThanAssertion):
-        return {"k": "lt", "l": vbuild.abstract_model(af, a._left, idmap), "g": vbuild.abstract_model(af, a._right, idmap)}
+    if isinstance(a, (GreaterThanLessThanEqualAssertion, GreaterThanLessThanAssertion)):
+        strict = not isinstance(a, GreaterThanLessThanEqualAssertion)
+        if isinstance(a._left, CompoundAssertion):
+            return {"k": "lowb", "strict": strict, "a": abstract_assertion(a._left, idmap), "g": abstract_operand(a._right, idmap)}
+        if isinstance(a._right, CompoundAssertion):
+            return {"k": "grb", "strict": strict, "l": abstract_operand(a._left, idmap), "a": abstract_assertion(a._right, idmap)}
+        return {"k": "lt" if strict else "le", "l": abstract_operand(a._left, idmap), "g": abstract_operand(a._right, idmap)}
     return {"k": "other", "repr": type(a).__name__}
 
 
-def collect_assertions(obj, idmap, out):
-    from autofit.mapper.prior_model.prior_model import Model
-    from autofit.mapper.prior_model.collection import Collection
-    if isinstance(obj, (Model, Collection)):
-        for a in obj._assertions:
-            out.append(abstract_assertion(a, idmap))
+def collect_levels(obj, idmap, path, out):
+    """`_assertions` of every level (Model, Collection, CompoundPrior) with its path; raw __dict__ walk."""
+    if isinstance(obj, (Model, Collection, CompoundPrior)):
+        if obj._assertions:
+            out.append({"path": list(path), "asserts": [abstract_assertion(a, idmap) for a in obj._assertions]})
         for k, v in obj.__dict__.items():
-            if not k.startswith("_") and k not in ("id", "cls"):
-                collect_assertions(v, idmap, out)
+            if not k.startswith("_") and k not in ("id", "cls", "item_number"):
+                collect_levels(v, idmap, path + [str(k)], out)
 
 
 def verdict(f):
     try:
         return {"ok": vbuild.abstract_instance(af, f())}
-    except exc.PriorLimitException:
-        return {"v": "limit"}
-    except exc.FitException:
-        return {"v": "assert"}
-    except AssertionError:
-        return {"v": "length"}
+    except exc.PriorLimitException as e:
+        return {"v": "limit", "fit": isinstance(e, exc.FitException), "exc": type(e).__name__}
+    except exc.FitException as e:
+        return {"v": "assert", "fit": True, "exc": type(e).__name__}
+    except AssertionError as e:
+        return {"v": "length", "fit": isinstance(e, exc.FitException), "exc": type(e).__name__}
     except BaseException as e:  # noqa
-        return {"v": "other", "exc": type(e).__name__, "msg": str(e)[:200]}
+        return {"v": "error", "fit": isinstance(e, exc.FitException), "exc": type(e).__name__, "msg": str(e)[:200]}
 
 
 def run_case(c):
     prog = c["program"]
     model, pool = vbuild.build(af, prog)
+    foreign = [af.UniformPrior(lower_limit=0.0, upper_limit=1.0) for _ in range(c.get("n_foreign", 0))]
     idmap = {p.id: i for i, p in enumerate(pool)}
+    for j, p in enumerate(foreign):
+        idmap[p.id] = len(pool) + j
+    attaches = []
     for a in c["asserts"]:
         level = model
         for k in a["level"]:
             level = getattr(level, k)
-        level.add_assertion(build_assertion(a["a"], pool))
-    out = {"tree": vbuild.abstract_model(af, model, idmap)}
-    found = []
-    collect_assertions(model, idmap, found)
-    out["asserts"] = found
-    out["limits"] = [[hexf(p.lower_limit), hexf(p.upper_limit)] for p in pool]
+        rec = {"level": list(a["level"])}
+        try:
+            obj, recipe = build_assertion(a["a"], pool, foreign, idmap)
+        except NotBuilt as e:
+            rec.update({"recipe": e.recipe, "built": None, "exc": "TypeError", "msg": str(e)[:200]})
+            attaches.append(rec)
+            continue
+        rec["recipe"] = recipe
+        rec["built"] = abstract_assertion(obj, idmap)
+        level.add_assertion(obj)
+        attaches.append(rec)
+    wrap = c.get("wrap")
+    if wrap == "list":
+        model = af.Collection([model])
+    elif wrap == "dict":
+        model = af.Collection(w=model)
+    elif wrap == "copy":
+        model = type(model).copy(model)      # (a collection item may be called "copy")
+    out = {"tree": vbuild.abstract_model(af, model, idmap), "attaches": attaches}
+    levels = []
+    collect_levels(model, idmap, [], levels)
+    out["levels"] = levels
+    by_id = {p.id: p for p in model.priors_ordered_by_id}
+    out["limits"] = [[hexf(by_id[p.id].lower_limit), hexf(by_id[p.id].upper_limit)] if p.id in by_id else None for p in pool]
     out["count"] = model.prior_count
     out["upaths"] = [list(map(str, p)) for p in model.unique_prior_paths]
     out["ids"] = [idmap.get(p.id, -1) for p in model.priors_ordered_by_id]
@@ -99,6 +187,13 @@ def run_case(c):
         vec = [unhex(x) for x in v]
         r = {"strict": verdict(lambda: model.instance_from_vector(vec)),
              "ignored": verdict(lambda: model.instance_from_vector(vec, ignore_prior_limits=True))}
+        if len(vec) == model.prior_count:
+            pa = {tuple(p): x for p, x in zip(model.unique_prior_paths, vec)}
+            r["paths"] = verdict(lambda: model.instance_from_path_arguments(pa))
+            r["paths_ignored"] = verdict(lambda: model.instance_from_path_arguments(pa, ignore_assertions=True))
+        if c.get("numpy"):
+            import numpy as np
+            r["numpy"] = verdict(lambda: model.instance_from_vector(np.array(vec)))
         out["runs"].append(r)
     out["unit_runs"] = []
     for u in c["units"]:
